@@ -7,6 +7,9 @@ an arbitrary list of labels `Act`: the client actions (`newArb`, `send`, `sysSen
 steps of the controller and of every arbiter thread, in any interleaving.  Every theorem quantifies
 over all schedules from `init` (`Arbiter::new` returning = the `newArb` step, after which
 `Register` is in the system queue; "queue order" = order in the linearizable channel history).
+`init` is the state `System::new()` returns in: the system arbiter (registered under `usize::MAX` =
+`sysArbId`) exists and its `Register` heads the system queue.  Arbiter ids are arbitrary naturals —
+the theorems hold whatever numbers the process-wide counters have handed out.
 
 Trusted, not proved here (see props/C09.json `partial`): OS thread scheduling, tokio's mpsc / oneshot
 / `LocalSet`; the tie of this model to the real crate is the membership run of engine `rt`.
@@ -94,8 +97,9 @@ theorem stop_enqueued_for_live (tr : List Act) (i r p : Nat) (c : Int)
 continuation `tr1 ++ tr2` of the schedule — arbitrary interleaving with all other threads — in which
 runner `i` takes as many steps as there are commands buffered in its channel (finitely many) during
 `tr1`, and thread `i` then performs its two remaining steps (`close`, `fin`) somewhere in `tr2`:
-the loop has ended after `tr1` and `join` on arbiter `i` returns after `tr2`. -/
-theorem all_live_arbiters_stopped (tr : List Act) (i r p : Nat) (c : Int)
+the loop has ended after `tr1` and `join` on arbiter `i` returns after `tr2`.  (`i ≠ sysArbId` only
+because the system arbiter has no thread to join; its loop ends too — `system_arbiter_stopped`.) -/
+theorem all_live_arbiters_stopped (tr : List Act) (i r p : Nat) (c : Int) (hi : i ≠ sysArbId)
     (hr : (run init tr).syssent[r]? = some (SysCmd.register i))
     (hp : (run init tr).syssent[p]? = some (SysCmd.exit c))
     (hrp : r < p) (hd : p < (run init tr).sysDone)
@@ -110,7 +114,32 @@ theorem all_live_arbiters_stopped (tr : List Act) (i r p : Nat) (c : Int)
     · have hcr := (reach_init.run tr).reg.reg_created r i hr
       have hlt : k < ((run init tr).arbs i).sent.length := (List.getElem?_eq_some_iff.mp hs).1
       exact runner_terminates ⟨hs, hcr⟩ hk tr1 (by omega)
-  exact ⟨hended, join_returns hended tr2 hfair2⟩
+  have hns : ((run (run init tr) tr1).arbs i).sys = false := by
+    rw [sys_run]; exact (reach_init.run tr).notsys hi
+  exact ⟨hended, join_returns hended hns tr2 hfair2⟩
+
+/-- **the system arbiter is stopped too.**  Once the controller has handled any `Exit`, the system
+arbiter's loop has ended or a `Stop` is buffered in its channel, and (as for every arbiter) after as
+many runner steps as it has commands buffered — under any interleaving — its loop has ended. -/
+theorem system_arbiter_stopped (tr : List Act) (p : Nat) (c : Int)
+    (hp : (run init tr).syssent[p]? = some (SysCmd.exit c)) (hd : p < (run init tr).sysDone)
+    (tr1 : List Act)
+    (hfair : ((run init tr).arbs sysArbId).sent.length ≤
+      ((run init tr).arbs sysArbId).recvd + runnerSteps sysArbId tr1) :
+    (((run init tr).arbs sysArbId).ended = true ∨ HasStop ((run init tr).arbs sysArbId)) ∧
+    ((run (run init tr) tr1).arbs sysArbId).ended = true := by
+  have hr := (reach_init.run tr).sysreg
+  have hrp : 0 < p := by
+    cases p with
+    | zero => rw [hr] at hp; cases hp
+    | succ p => omega
+  have h1 := stop_enqueued_for_live tr sysArbId 0 p c hr hp hrp hd
+  refine ⟨h1, ?_⟩
+  rcases h1 with he | ⟨k, hk, hs⟩
+  · exact ended_mono_run he tr1
+  · have hcr := (reach_init.run tr).reg.reg_created 0 sysArbId hr
+    have hlt : k < ((run init tr).arbs sysArbId).sent.length := (List.getElem?_eq_some_iff.mp hs).1
+    exact runner_terminates ⟨hs, hcr⟩ hk tr1 (by omega)
 
 /-- **already-stopped arbiters are deregistered and do not disturb anything.**  For an arbiter whose
 `Deregister` is in the queue: its thread has finished; once the controller has handled the
@@ -137,15 +166,15 @@ theorem source_shape : sourceShapeC09 = true := by decide
 def demo : List Act :=
   [.newArb 0, .newArb 1, .send 1 .stop, .runner 1, .close 1, .fin 1,
    .send 0 (.exec 5), .runner 0, .task 0,
-   .sysSend 7, .sysSend 9, .ctrl, .ctrl, .ctrl, .ctrl, .ctrl]
+   .sysSend 7, .sysSend 9, .ctrl, .ctrl, .ctrl, .ctrl, .ctrl, .ctrl]
 
 example : runWithCode (run init demo) = some 7 := by decide
 example : (run init demo).sends = [7] := by decide
 example : (run init demo).syssent =
-    [.register 0, .register 1, .deregister 1, .exit 7, .exit 9] := by decide
-example : (run init demo).sysDone = 5 := by decide
+    [.register sysArbId, .register 0, .register 1, .deregister 1, .exit 7, .exit 9] := by decide
+example : (run init demo).sysDone = 6 := by decide
 example : runResult (run init demo) = some (.err 7) := by decide
-example : runResult (run init [.sysSend 0, .ctrl]) = some .ok := by decide
+example : runResult (run init [.sysSend 0, .ctrl, .ctrl]) = some .ok := by decide
 -- arbiter 0 is live (registered before the Exit, loop not ended) and has `Stop` buffered
 example : ((run init demo).arbs 0).ended = false ∧ ((run init demo).arbs 0).sent = [.exec 5, .stop, .stop]
     ∧ ((run init demo).arbs 0).recvd = 1 := by decide
@@ -154,7 +183,16 @@ example : joinReturns (run (run (run init demo) [.runner 0]) [.close 0, .fin 0])
 -- arbiter 1 was deregistered before the Exit: untouched, not registered
 example : (run init demo).registered 1 = false ∧ ((run init demo).arbs 1).sent = [.stop] := by decide
 -- an Exit handled while an ended arbiter is still registered (Deregister behind the Exit)
-example : ((run init [.newArb 0, .send 0 .stop, .runner 0, .close 0, .sysSend 3, .fin 0, .ctrl, .ctrl, .ctrl]).arbs 0).sent
+example : ((run init [.newArb 0, .send 0 .stop, .runner 0, .close 0, .sysSend 3, .fin 0, .ctrl, .ctrl, .ctrl, .ctrl]).arbs 0).sent
     = [.stop] := by decide
+-- the system arbiter got its `Stop` with the first Exit (and another with the second); one runner
+-- step ends its loop; it cannot be joined (`fin` is not enabled for it)
+example : ((run init demo).arbs sysArbId).sent = [.stop, .stop] ∧ ((run init demo).arbs sysArbId).ended = false := by decide
+example : ((run (run init demo) [.runner sysArbId]).arbs sysArbId).ended = true := by decide
+example : joinReturns (run (run init demo) [.runner sysArbId, .close sysArbId, .fin sysArbId]) sysArbId = false := by decide
+-- an arbiter whose process-wide number coincides with another id in play (here: 1 = the system's id
+-- in a process whose first System hosted no arbiters) is registered, stopped and joined like any other
+example : joinReturns (run init [.newArb 1, .newArb 2, .send 2 .stop, .runner 2, .close 2, .fin 2,
+    .ctrl, .ctrl, .ctrl, .ctrl, .sysSend 3, .ctrl, .runner 1, .close 1, .fin 1]) 1 = true := by decide
 
 end ActixNet.C09
